@@ -112,6 +112,8 @@ def gen_client_plan(rng, prof=None):
     }
     if rng.random() < 0.3:
         script['probe_reply'] = rng.choice(['3nope', '4x', '3', '6', '2probe'])
+    # how an upgrade socket is refused: HTTP status, or no TCP connection
+    script['probe_status'] = rng.choice([400, 403, 0, 0])
     tl = script['timeline']
     for _ in range(rng.randint(*p.get('server_msgs', (0, 6)))):
         n = rng.choice([1, 1, 1, 2, 5, 16, p.get('max_burst', 16)])
